@@ -11,6 +11,13 @@ From AV Require Import Base Gen_transport WriteGate WriteGateProofs.
 Theorem C15_probe : write_rechecks_gate = true.
 Proof. reflexivity. Qed.
 
+(* ... and a framed message of any size (probed on the running transports from 0 bytes to 1 MiB, around the
+   64 KiB mark in particular) is handed to the socket in one write call: the model's "a write is one whole
+   message" is what the code does *)
+Theorem C15_probe_whole : write_hands_over_whole = true.
+Proof. reflexivity. Qed.
+
+
 (* while the transport reports its send buffer full nothing is written - in particular by
    writers released together when the first of them refills the buffer (this was F14) *)
 Theorem C15_silent_while_full : forall ls, blind (wrun ls) = [].
@@ -52,6 +59,7 @@ Example C15_ex :
 Proof. vm_compute. repeat split. Qed.
 
 Print Assumptions C15_probe.
+Print Assumptions C15_probe_whole.
 Print Assumptions C15_silent_while_full.
 Print Assumptions C15_reading_follows_gate.
 Print Assumptions C15_whole_at_most_once.
